@@ -96,6 +96,10 @@ func TestC13(t *testing.T) {
 	runs := rec.N(200, 4000)
 	for c := 0; c < runs; c++ {
 		if rec.Mine(c) {
+			if c%10 == 9 {
+				duels(rec, c)
+				continue
+			}
 			if !runOne(rec, c) {
 				return
 			}
@@ -112,6 +116,11 @@ func runOne(rec *mon.Recorder, c int) bool {
 	cfg.Ef, cfg.EfC = 4+rng.Intn(20), 4+rng.Intn(20)
 	idx, sp := cfg.New()
 	nIds := 4 + rng.Intn(21)
+	if c%5 == 4 {
+		// one or two ids: the index is empty again and again, so inserts and
+		// removes of the same id race for the first entry point
+		nIds = 1 + c/5%2
+	}
 	manyWriters := c%2 == 1
 	workload := "single-writer"
 	writers, readers := 1, 2+rng.Intn(10)
@@ -123,6 +132,14 @@ func runOne(rec *mon.Recorder, c int) bool {
 	opsPerWriter := rec.N(1500, 4000) / writers
 	if opsPerWriter < 100 {
 		opsPerWriter = 100
+	}
+	if nIds <= 2 {
+		// every operation is on the same one or two ids: keep the per-id
+		// histories within what the linearizability checker decides quickly
+		opsPerWriter = 400 / writers
+		if opsPerWriter < 12 {
+			opsPerWriter = 12
+		}
 	}
 	procs := 16
 	if c%4 >= 2 {
@@ -467,4 +484,145 @@ func lockWaiters() []string {
 	}
 	sort.Strings(out)
 	return out
+}
+
+// duels: many tiny histories on an index that is empty or holds one item. In
+// each, 2-4 goroutines insert and remove the same one or two ids concurrently
+// (with scheduling noise at the index's yield points), then the index is
+// inspected at quiescence. With so few operations the outcome is decided
+// exactly: an id is stored iff its last successful operation in every legal
+// order could be an insert - here simply: contents must equal what sequential
+// Gets report, the structural invariants must hold (entry point live and
+// stored iff the index is non-empty), and a search must satisfy what C01
+// states for a sequential history (live items only, true scores, ascending,
+// unique, at most k, not empty when something is stored).
+func duels(rec *mon.Recorder, c int) {
+	rng := rec.Rand("c13-duel", c)
+	cfg := hx.GenCfg(rng)
+	desc0 := fmt.Sprintf("run=%d duels cfg=%s", c, cfg.String())
+	rec.Current(desc0)
+	var yctr uint64
+	yseed := uint64(rng.Int63())
+	index.VerifYield = func(point string) {
+		n := atomic.AddUint64(&yctr, 1)
+		h := (n*0x9e3779b97f4a7c15 ^ yseed) >> 33
+		switch {
+		case h%3 == 0:
+			runtime.Gosched()
+		case h%11 == 1:
+			time.Sleep(time.Duration(h%20) * time.Microsecond)
+		}
+	}
+	defer func() { index.VerifYield = nil }()
+	prev := runtime.GOMAXPROCS(2 + c/10%3*7) // 2, 9 or 16
+	defer runtime.GOMAXPROCS(prev)
+	rounds := rec.N(1500, 6000)
+	bad := false
+	for round := 0; round < rounds && !bad; round++ {
+		idx, sp := cfg.New()
+		nIds := 1 + rng.Intn(2)
+		pre := rng.Intn(3) == 0 // start from a one-item index instead of an empty one
+		if pre {
+			idx.Insert(hx.Id(7), cfg.Vec(rng), index.Metadata{"v": "pre"}, rng.Intn(3))
+		}
+		actors := 2 + rng.Intn(3)
+		type act struct {
+			insert bool
+			id     int
+			vec    amath.Vector
+			lvl    int
+		}
+		plans := make([][]act, actors)
+		for a := range plans {
+			for k := 0; k < 1+rng.Intn(3); k++ {
+				plans[a] = append(plans[a], act{rng.Intn(2) == 0, rng.Intn(nIds), cfg.Vec(rng), rng.Intn(3)})
+			}
+		}
+		if pre && rng.Intn(2) == 0 {
+			plans[0] = append([]act{{false, 7, nil, 0}}, plans[0]...) // someone removes the only item
+		}
+		var wg sync.WaitGroup
+		var panicked atomic.Value
+		start := make(chan struct{})
+		for a := range plans {
+			wg.Add(1)
+			go func(plan []act) {
+				defer wg.Done()
+				defer func() {
+					if r := recover(); r != nil {
+						panicked.Store(fmt.Sprint(r))
+					}
+				}()
+				<-start
+				for _, op := range plan {
+					if op.insert {
+						idx.Insert(hx.Id(op.id), op.vec, index.Metadata{"v": "x"}, op.lvl)
+					} else if op.id == 7 {
+						idx.Remove(hx.Id(7))
+					} else {
+						idx.Remove(hx.Id(op.id))
+					}
+				}
+			}(plans[a])
+		}
+		close(start)
+		wg.Wait()
+		rec.Count("duels", 1)
+		ps := ""
+		for a, plan := range plans {
+			ps += fmt.Sprintf(" g%d:", a)
+			for _, op := range plan {
+				if op.insert {
+					ps += fmt.Sprintf("ins(%d,L%d)", op.id, op.lvl)
+				} else {
+					ps += fmt.Sprintf("rem(%d)", op.id)
+				}
+			}
+		}
+		desc := fmt.Sprintf("%s round=%d ids=%d preloaded=%v plans=%s", desc0, round, nIds, pre, ps)
+		fail := func(sym, detail string) {
+			rec.Violation("duel:quiescent:"+sym, desc+": "+detail, map[string]interface{}{"run": c, "round": round, "seed": rec.Seed(), "desc": desc})
+			bad = true
+		}
+		if p := panicked.Load(); p != nil {
+			fail("panic", p.(string))
+			break
+		}
+		live := hx.Ref{}
+		for _, id := range []int{0, 1, 7} {
+			if v, err := idx.Get(hx.Id(id)); err == nil {
+				_, md, _, _ := idx.VerifGetItem(hx.Id(id))
+				live[hx.Id(id)] = &hx.Item{Vec: v, Meta: md}
+			}
+		}
+		d := idx.VerifDump()
+		if idx.Len() != len(live) {
+			fail("len-counter", fmt.Sprintf("Len()=%d but Get succeeds for %d ids", idx.Len(), len(live)))
+		} else if sym, det := hx.DumpInvariants(d, sp); sym != "" {
+			fail(sym, det)
+		} else if diff := hx.ContentDiff(d, live); diff != "" {
+			fail("contents", diff)
+		} else {
+			q := cfg.Vec(rng)
+			res, err := hx.Search(idx, q, 5)
+			if err != nil {
+				fail("search-error", err.Error())
+			} else if sym, det := hx.CheckSearch(sp, live, q, 5, res); sym != "" {
+				fail("search-"+sym, det)
+			} else if len(res) != len(live) {
+				// not a verdict: no property promises that every stored item is
+				// reachable after removals (an insert that races with the removal
+				// of its only neighbour is left without links)
+				rec.Count("duels_with_a_stored_item_not_reachable_by_search", 1)
+			}
+		}
+		if d.HasEntrypoint {
+			rec.Seen("duel_outcomes", fmt.Sprintf("items=%d", len(live)))
+		} else {
+			rec.Seen("duel_outcomes", "empty")
+		}
+	}
+	rec.Count("yield_points_hit", int64(atomic.LoadUint64(&yctr)))
+	rec.Seen("workloads", "duels")
+	rec.Case(mon.Digest(desc0), true)
 }
